@@ -198,13 +198,13 @@ typedef struct {
 } pres_t;
 #define MAXP 12
 
-typedef struct { int op, role, content, ctx, xf, rep, fil, rq, cfg; } scen_t;
+typedef struct { int op, role, content, ctx, xf, rep, fil, rq, cfg; int clip; /* 1: the role image carries a two-box client clip that applies to it as a source (role source / mask) or as destination */ } scen_t;
 
 static void describe(const scen_t *s, char *buf, size_t cap)
 {
     char cn[64];
-    snprintf(buf, cap, "op=%s role=%s content=%d ctx=%d transform=%s repeat=%s filter=%s request=(src %d,%d %dx%d at dest %d,%d) PIXMAN_DISABLE=[%s]",
-             rc_op_name(s->op), ROLEN[s->role], s->content, s->ctx, XF[s->xf].name, REPN[s->rep], FILN[s->fil], RQ[s->rq].sx, RQ[s->rq].sy, RQ[s->rq].w, RQ[s->rq].h,
+    snprintf(buf, cap, "op=%s role=%s%s content=%d ctx=%d transform=%s repeat=%s filter=%s request=(src %d,%d %dx%d at dest %d,%d) PIXMAN_DISABLE=[%s]",
+             rc_op_name(s->op), ROLEN[s->role], s->clip ? "(with a two-box client clip that applies to it)" : "", s->content, s->ctx, XF[s->xf].name, REPN[s->rep], FILN[s->fil], RQ[s->rq].sx, RQ[s->rq].sy, RQ[s->rq].w, RQ[s->rq].h,
              DX, DY, ph_cfg_name(s->cfg, cn, sizeof cn));
 }
 
@@ -411,6 +411,15 @@ static void run_scenario(const scen_t *s)
             set_filter(p->im.img, s->fil);
             if (s->role == 1 && ca_mask) pixman_image_set_component_alpha(p->im.img, 1);
         }
+        if (s->clip && p->im.img) {
+            /* the same clip on every presentation, in the image's own coordinates, cutting the request in two places */
+            int ox = s->role == 2 ? DX : rq->sx, oy = s->role == 2 ? DY : rq->sy;
+            pixman_box32_t cb[2] = { { ox + 1, oy, ox + rq->w - 1, oy + 1 }, { ox, oy + 1, ox + (rq->w + 1) / 2, oy + rq->h } };
+            pixman_region32_t cr; pixman_region32_init_rects(&cr, cb, 2);
+            pixman_image_set_clip_region32(p->im.img, &cr); pixman_region32_fini(&cr);
+            pixman_image_set_has_client_clip(p->im.img, 1); pixman_image_set_source_clipping(p->im.img, 1);
+        }
+        if (s->clip && !p->im.img) continue;           /* "no mask" cannot carry the clip */
         if (s->role == 0) { src = p->im.img; mask = cmask.img; d = &cdst; }
         else if (s->role == 1) { src = csrc.img; mask = p->im.img; d = &cdst; }
         else { src = csrc.img; mask = cmask.img; d = &p->im; pixman_image_set_repeat(p->im.img, rep); }
@@ -442,6 +451,7 @@ static void run_scenario(const scen_t *s)
         if (p->needs_repeat && rep == PIXMAN_REPEAT_NONE) ok = 0;    /* a REPEAT_NONE picture is transparent outside: solid/1x1 are other pictures */
         if (p->fixed_shape && conv) ok = 0;                           /* a solid fill has no filter: outside the statement */
         if (p->needs_repeat && !p->fixed_shape && conv) ok = 0;       /* 1x1 images under convolution: outside the statement */
+        if (s->clip && !p->im.img) ok = 0;                            /* "no mask" cannot carry the role image's clip */
         role_none_or_conv_ok[k] = ok;
     }
     for (int k = 0; k < np && !vf_failed(); k++) {
@@ -513,7 +523,7 @@ static void run_scenario(const scen_t *s)
     }
 
     /* ---- absolute anchor: exact operators, untransformed, nearest/bilinear (identity => same), 8888 results vs rc_exact_pixel */
-    if (!vf_failed() && rc_is_exact_op(s->op) && s->xf == 0 && !conv && base8 >= 0) {
+    if (!vf_failed() && rc_is_exact_op(s->op) && s->xf == 0 && !conv && base8 >= 0 && !s->clip) {
         pres_t *q = &P[base8];
         int npx = 0;
         if (q->dfmt.bpp == 32) {
@@ -584,13 +594,13 @@ static void run_scenario(const scen_t *s)
 
 #include "c09_gradients.h"      /* space "gradients": gradient image vs pre-rendered copy */
 
-typedef struct { int dims[9]; const int *cfgs; } ctx_t;
+typedef struct { int dims[10]; const int *cfgs; } ctx_t;
 static void scen_case(uint64_t idx, void *vctx)
 {
-    ctx_t *c = vctx; int d[9];
-    vf_decode(idx, c->dims, 9, d);
+    ctx_t *c = vctx; int d[10];
+    vf_decode(idx, c->dims, 10, d);
     /* digit order (fastest first): request, filter, repeat, transform, ctx, content, role, op, cfg */
-    scen_t s = { rc_all_ops[d[7]], d[6], d[5], d[4], d[3], d[2], d[1], d[0], c->cfgs[d[8]] };
+    scen_t s = { rc_all_ops[d[7]], d[6], d[5], d[4], d[3], d[2], d[1], d[0], c->cfgs[d[8]], d[9] };
     if (vf_verbose) { char desc[400]; describe(&s, desc, sizeof desc); printf("  scenario: %s\n", desc); }
     run_scenario(&s);
 }
@@ -686,7 +696,8 @@ int main(int argc, char **argv)
               "which pixel was fetched before (inside C13's one-step contract, not an opacity matter)");
     vf_assume("component-alpha masks are presented as white (all four channels 1); indexed, wide and sRGB formats are not presentations of this check");
 
-    uint64_t N = vf_product(c.dims, 9);
+    c.dims[9] = 2;
+    uint64_t N = vf_product(c.dims, 10);
     const char *only = getenv("C09_ONLY");                       /* development aid: run one space only (the evidence then says so in the bounds) */
     if (!only || !strcmp(only, "scenarios")) vf_space_run("scenarios", N, scen_case, &c);
 
@@ -729,7 +740,7 @@ int main(int argc, char **argv)
     static char bounds[1800];
     snprintf(bounds, sizeof bounds, "53 operators x 3 roles x 2 contents (3x3 of nine 565-representable opaque colours | constant; masks: unified | component-alpha white) x %d context image sets "
              "(translucent / opaque / r5g6b5 / a8 partners, with and without masks) x %d transforms x 4 repeats x %d filters x %d request rectangles (inside, bilinear-covered, nearest-covered only, "
-             "partly and wholly outside the 3x3 source, up to 20 pixels wide) x %d configurations = %llu scenarios, up to 11 presentations each; destination 21x8. "
+             "partly and wholly outside the 3x3 source, up to 20 pixels wide) x %d configurations x {no clip, a two-box client clip on the role image that applies to it} = %llu scenarios, up to 11 presentations each; destination 21x8. "
              "Space 'gradients': 53 operators x 2 roles (source, unified-alpha mask) x %d context image sets (a8r8g8b8 / x8r8g8b8 / r5g6b5%s destinations; with and without a8 or solid mask; solid, "
              "opaque and translucent 3x3 sources) x %d gradients (%d linear, %d radial: a<0, a==0 internally tangent, a>0 disjoint / overlapping / equal circles; %d conical) x %d stop sets "
              "(all opaque | one translucent stop) x 4 repeats x %d transforms x %d request rectangles (up to 20x7, reaching outside the cone resp. outside [0,1]) x %d configurations "
